@@ -62,7 +62,7 @@ def run(chk: Check) -> int:
         if col.enough():
             break
         rng = chk.rng("case", k)
-        col.add(I.run_case(random_fault_spec(rng, not chk.quick), I.RandomSched(rng)), f"seed{chk.seed}/{k}")
+        col.add(I.safe_run(col, random_fault_spec(rng, not chk.quick), I.RandomSched(rng), f"seed{chk.seed}/{k}"), f"seed{chk.seed}/{k}")
     # exhaustive fault plans: every assignment of success/failure to the first retries+1 evaluations of
     # each point, both raise settings, all runner kinds; every schedule (subsets, one order) for each
     exh = {}
@@ -82,11 +82,11 @@ def run(chk: Check) -> int:
                 break
             faults = {k: True for k, b in zip(keys, bits) if b}
             spec = fault_spec(kind, nt, T, R, rz, faults)
-            for rec in I.enumerate_scheds(lambda s, spec=spec: I.run_case(spec, s), orders="sub", cancel=False, limit=20000):
+            for rec in I.enumerate_scheds(lambda s, spec=spec: I.safe_run(col, spec, s, "exhaustive"), orders="sub", cancel=False, limit=20000):
                 cnt += 1
                 col.add(rec, f"exhaustive {kind} ntasks={nt} points={T} retries={R} raise={rz} faults={sorted(faults)} #{cnt}",
                         coq=(cnt % (1 if chk.quick else 3) == 0))
-                if rec.machinery or col.enough():
+                if rec is None or rec.machinery or col.enough():
                     break
         exh[f"{kind} ntasks={nt} points={T} retries={R} raise={rz}"] = cnt
     col.flush()
